@@ -5,7 +5,7 @@
    without '\n'; the reader follows ANY schedule [sch] of read sizes. *)
 From Coq Require Import ZArith List Bool.
 From RM Require Import Base.Word C08.Model C11.Model C09.Model C09.Grammar C09.Driver C09.Proofs C09.ProofsBytes C09.ProofsFinish C09.ProofsFinal C09.ProofsTrace C09.Circular C09.ProofsCircular C09.ProofsLines C09.ProofsTable.
-From RM Require C09.Pins C09.PinsMem C08.Proofs C09.PinsNum Gen.C09Numeric C09.ProofsText.
+From RM Require C09.Pins C09.PinsMem C08.Proofs C09.PinsNum Gen.C09Numeric C09.ProofsText C09.ProofsRecord.
 Import ListNotations.
 Open Scope Z_scope.
 
@@ -580,3 +580,43 @@ Example c09_nonvacuous_text :
 Proof.
   split; [exact ProofsText.wf8_example|vm_compute; reflexivity].
 Qed.
+
+(* A whole record kind as a declarative grammar over BYTES, both directions (FILE and INLINE_ORIGIN; the other kinds are
+   recognised by the same byte-level model but have no declarative counterpart yet):
+       line ::= KEYWORD sp+ digit{1,10} sp+ name cr*     sp = ' ' | '\t', cr = '\r', value(digits) <= u32::MAX,
+                                                          name: no '\r', not starting with sp, well-formed UTF-8
+   ([ProofsRecord.id_name_line]).  The recogniser answers PErr (alt tries the next record kind) iff the line does not start
+   with KEYWORD followed by a space or tab; it answers POk iff the line has this shape, the id being the value of the digits
+   and the returned string having exactly the bytes of the name; everything else is PFail (cut: the whole parse fails). *)
+Theorem c09_id_name_record_grammar :
+  forall s : rle,
+    (p_file s = PErr <-> ~ ProofsRecord.has_header T_FILE (PinsNum.expand s)) /\
+    (forall it, p_file s = POk it ->
+        exists id n name, it = IFile id n /\ ProofsRecord.id_name_line T_FILE (PinsNum.expand s) id name /\ PinsNum.expand n = name) /\
+    (forall id name, ProofsRecord.id_name_line T_FILE (PinsNum.expand s) id name ->
+        exists n, p_file s = POk (IFile id n) /\ PinsNum.expand n = name) /\
+    (p_inline_origin s = PErr <-> ~ ProofsRecord.has_header T_INLINE_ORIGIN (PinsNum.expand s)) /\
+    (forall it, p_inline_origin s = POk it ->
+        exists id n name, it = IOrigin id n /\ ProofsRecord.id_name_line T_INLINE_ORIGIN (PinsNum.expand s) id name /\
+                          PinsNum.expand n = name) /\
+    (forall id name, ProofsRecord.id_name_line T_INLINE_ORIGIN (PinsNum.expand s) id name ->
+        exists n, p_inline_origin s = POk (IOrigin id n) /\ PinsNum.expand n = name).
+Proof.
+  intros s. rewrite ProofsRecord.p_file_is, ProofsRecord.p_inline_origin_is.
+  split; [apply ProofsRecord.p_id_name_err|]. split; [intros it; apply ProofsRecord.p_id_name_sound|].
+  split; [intros id name; apply ProofsRecord.p_id_name_complete|].
+  split; [apply ProofsRecord.p_id_name_err|]. split; [intros it; apply ProofsRecord.p_id_name_sound|].
+  intros id name; apply ProofsRecord.p_id_name_complete.
+Qed.
+Print Assumptions c09_id_name_record_grammar.
+
+(* non-vacuity: "FILE 12 \t a\xc3\xa9\r\r" has the shape (id 12, name "aé") and is recognised as such; "FILE 4294967296 x"
+   and "FILE 1 \xff" have the header but not the shape: PFail; "FILEX 1 x" has no header: PErr *)
+Example c09_nonvacuous_record :
+  ProofsRecord.id_name_line T_FILE (PinsNum.expand (to_rle [70; 73; 76; 69; 32; 49; 50; 32; 9; 97; 195; 169; 13; 13])) 12 [97; 195; 169] /\
+  (p_file (to_rle [70; 73; 76; 69; 32; 49; 50; 32; 9; 97; 195; 169; 13; 13]),
+   p_file (to_rle [70; 73; 76; 69; 32; 52; 50; 57; 52; 57; 54; 55; 50; 57; 54; 32; 120]),
+   p_file (to_rle [70; 73; 76; 69; 32; 49; 32; 255]),
+   p_file (to_rle [70; 73; 76; 69; 88; 32; 49; 32; 120]))
+  = (POk (IFile 12 [(97, 1); (195, 1); (169, 1)]), PFail, PFail, PErr).
+Proof. split; [rewrite PinsNum.expand_to_rle; exact ProofsRecord.file_line_example|vm_compute; reflexivity]. Qed.
